@@ -274,6 +274,7 @@ def run_config(ctx, facts):
         ctx.ob("C12-R4", "default drop() calls remove(id) on every path", ok and bool(rem), dflt.loc(),
                "" if ok and rem else "default drop() can return without remove(id): %s" % dflt.fmt_path(wit))
     r4_bulk(ctx, facts)
+    r4_who_clears(ctx, facts)
     r6(ctx, facts)
     r5(ctx, facts)
 
@@ -295,6 +296,31 @@ def r4_bulk(ctx, facts):
                         bulk.append("%s at %s" % (x.path, x.loc(bb)))
         ctx.ob("C12-R4", "entity deletion never takes the silent bulk path (clean/clear)", not bulk, b.loc(),
                "" if not bulk else "deleting entities can reach %s: components disappear without a Removed event" % bulk[:3])
+
+
+def r4_who_clears(ctx, facts):
+    """the silent bulk path has exactly one user-facing door: the operation the property exempts by name (`clear`).  Every direct caller of
+    the non-delegating bulk primitives (MaskedStorage::clear, UnprotectedStorage::clean on a MaskedStorage's inner storage) is a `clear`
+    method, a Drop impl, or the wrapper's own delegating clean; any other function that takes components out that way (a `remove_many` /
+    `retain` fast path 'when nothing survives') removes individually requested components without a Removed event."""
+    callers = facts.callers()
+    bad = []
+    n = 0
+    for p, lst in callers.items():
+        tb = [x for x in facts.by_path.get(p, [])]
+        is_mclear = any(x.name == "clear" and not x.trait_item and base_ty(x.self_ty or "") == "storage::MaskedStorage" for x in tb)
+        is_clean = any(x.trait_item == US + "::clean" for x in tb) or p == US + "::clean"
+        if not (is_mclear or is_clean):
+            continue
+        for cb, bb in lst:
+            if cb.kind == "Closure":
+                continue
+            n += 1
+            fine = cb.name in ("clear", "clean") or (cb.trait_item or "").endswith("Drop::drop") or (cb.trait_item or "") == US + "::clean"
+            if not fine:
+                bad.append("%s at %s" % (cb.path, cb.loc(bb)))
+    ctx.ob("C12-R4", "only clear() / Drop reach the silent bulk path", not bad and n > 0, "",
+           "" if not bad else "the bulk path (no Removed events) is taken by %s: components removed on request vanish from a reader's view of the storage" % sorted(set(bad))[:4])
 
 
 def r6(ctx, facts):
